@@ -4,7 +4,7 @@
 # consecutive checks on an unchanged tree do not rebuild; any edit of /repo/src changes the key and forces a rebuild.
 # Exit 2 = tool error (instrumented copy does not build).
 set -e
-V=/verif
+V=$(cd "$(dirname "$0")/.." && pwd)
 REPO=${ARX_REPO:-/repo}
 key=$( (cd "$REPO" && find src Cargo.toml -type f | LC_ALL=C sort | xargs sha256sum; \
         cd $V && find rt/arx_vstd/src rt/arx_vstd/Cargo.toml rt/harness/src rt/harness/Cargo.toml rt/harness/Cargo.lock tools/instrument.sh tools/build.sh -type f | LC_ALL=C sort | xargs sha256sum; \
@@ -16,7 +16,7 @@ mkdir -p $V/.cache
 exec 9> $V/.cache/build.lock
 flock 9
 if [ -x "$bin" ]; then echo "$bin"; exit 0; fi
-S=/tmp/arxv-build
+S=/tmp/arxv-build$(echo "$V" | cksum | cut -c1-6)
 rm -rf "$S"; mkdir -p "$S"
 trap 'rm -rf "$S"' EXIT
 sh $V/tools/instrument.sh "$REPO" "$S/inst" >&2
